@@ -13,6 +13,7 @@ import (
 	"sync"
 	"sync/atomic"
 	"time"
+	"unicode/utf8"
 
 	"github.com/tidwall/tile38/verif/harness/t38"
 	"pgregory.net/rapid"
@@ -32,6 +33,7 @@ type whHook struct {
 	Meta          bool       `json:"meta,omitempty"`
 	StartClosedMs int        `json:"start_closed_ms,omitempty"`
 	Script        []epAction `json:"script"` // consumed one per arriving request; afterwards always ok
+	NameTail      int        `json:"name_tail,omitempty"` // index into hostileTail, appended to hook and twin name
 }
 
 type whWrite struct {
@@ -102,6 +104,7 @@ func drawWHCase(rt *rapid.T, thorough bool) whCase {
 			h.Fence.Cmd = "NEARBY"
 		}
 		h.Meta = rapid.IntRange(0, 3).Draw(rt, "meta") == 0
+		h.NameTail = drawTail(rt, "nametail", allowInvalidNames)
 		budget := 2500
 		if thorough {
 			budget = rapid.SampledFrom([]int{1500, 3000, 6000, 9000}).Draw(rt, "budget")
@@ -480,8 +483,8 @@ func runWebhook(p whCase) *outcome {
 	}
 	r := &whRun{o: o, p: p, t0: now()}
 	ctl := dial()
-	hookName := func(i int) string { return fmt.Sprintf("w%dh%d", n, i) }
-	twinName := func(i int) string { return fmt.Sprintf("w%dt%d", n, i) }
+	hookName := func(i int) string { return fmt.Sprintf("w%dh%d", n, i) + tailOf([]int{p.Hooks[i].NameTail}, 0) }
+	twinName := func(i int) string { return fmt.Sprintf("w%dt%d", n, i) + tailOf([]int{p.Hooks[i].NameTail}, 0) }
 	defer func() {
 		for _, e := range r.eps {
 			e.shut(true)
@@ -659,6 +662,10 @@ func (r *whRun) verify() {
 			o.fail("subscriber-protocol", "hook %d twin: %s", i, terr)
 			return
 		}
+		if len(X) == 0 && !utf8.ValidString(tw.name) {
+			o.fail(findingNameUTF8, "hook %d: the twin channel %q (name is not valid UTF-8) was created and its subscription acknowledged, but none of the notifications of the acknowledged writes was delivered to it", i, tw.name)
+			return
+		}
 		if len(X) == 0 {
 			panic(fmt.Sprintf("harness self-check: hook %d: the closing writes produced no notification on the twin channel: %s", i, jsonStr(r.p)))
 		}
@@ -742,7 +749,11 @@ func (r *whRun) verify() {
 					bad("webhook-lost", "hook %d: notification %d of %d was never answered 200 although later ones (and the closing one) were: %s", i, k, len(X), x)
 				} else if !complete {
 					if timingUnsafe == "" {
-						o.fail("webhook-stalled", "hook %d: %d of %d notifications were answered 200 and nothing more arrived for %v after the endpoint recovered", i, len(G), len(X), budget.Round(time.Second))
+						key := "webhook-stalled"
+						if len(G) == 0 && h.NameTail >= firstInvalidTail {
+							key = findingNameUTF8
+						}
+						o.fail(key, "hook %d: %d of %d notifications were answered 200 and nothing more arrived for %v after the endpoint recovered", i, len(G), len(X), budget.Round(time.Second))
 					} else {
 						o.inconclusive = fmt.Sprintf("hook %d: stream incomplete (%d of %d) — %s", i, len(G), len(X), timingUnsafe)
 					}
@@ -754,6 +765,11 @@ func (r *whRun) verify() {
 		}
 		// evidence
 		o.count("notifications-delivered-200", len(G))
+		if h.NameTail >= firstInvalidTail {
+			o.label("hook-name-not-utf8")
+		} else if h.NameTail > 0 {
+			o.label("hook-name-hostile")
+		}
 		if len(G) > 100 {
 			o.label("hook-with>100-notifications")
 		}
